@@ -44,8 +44,14 @@ CHECKS = {
    text="2-4 client threads issue read-modify-write increments, conditional creates (MERGE) and copy statements on shared nodes through ndb_execute_write under seeded schedules; final counters must equal the number of acknowledged increments and each merged key must exist exactly once.", ref="§3 C09"),
  "C10": dict(cat="exploration", tech="deterministic simulation: two engine handles sharing only the simulated directory, seeded interleaving of their open/commit/compact/close actions",
    text="PRNG-chosen interleavings of two handles on one path; a second open while the first handle is open must be refused (or wait); the replay of a violation closes both, reopens and reports lost acknowledged commits.", ref="§3 C10"),
+ "C13": dict(cat="exploration", tech="deterministic simulation: statement-level fault (evaluation fails at an arbitrary row of a multi-row statement) in auto-commit mode and inside explicit C API transactions, model comparison after every operation",
+   text="Generated C API sessions from a template grammar with a model function per template; multi-row statements fail at a PRNG-chosen row (type error, refused delete); statements that returned an error must have no effect immediately, after commit of the surrounding transaction and after reopen. Attribution by the twin history without the failed statements.", ref="§3 C13"),
+ "C14": dict(cat="exploration", tech="deterministic simulation: invariant monitor in every configuration + statement-level create/delete histories through the C API",
+   text="(1) every dump in every configuration checks that each relationship returned in either direction connects two existing nodes and that the outgoing and incoming views agree; (2) C API sessions with create-then-(DETACH )DELETE in one statement sequence, one transaction and after commit: a delete of a connected node must fail, traversals from both endpoints must agree.", ref="§3 C14"),
  "C17": dict(cat="fault_enumeration", tech="deterministic simulation with fault injection: stored-byte faults on the log tail (every truncation offset, zero/random/length-field/oversize tails, unfinished transaction, bit flips) followed by write + reopen rounds",
    text="Every truncation offset inside the last transaction (and every stride-th of the rest of the tail region) plus appended garbage tails and bit flips; each mutated log is opened, dumped against the state after the last completely written transaction, written to again and reopened twice.", ref="§3 C17"),
+ "C24": dict(cat="exploration", tech="deterministic simulation: explicit-transaction histories through the C API, transaction-local reference model, attribution by splitting transactions into auto-commit statements",
+   text="Sessions with 80% multi-statement explicit transactions whose later statements read, update, merge or delete what earlier ones wrote; the model applies each statement to the transaction-local state and the dump after commit must equal it.", ref="§3 C24"),
  "C28": dict(cat="exploration", tech="deterministic simulation: model-based lifecycle histories (vacuum events) on the simulated disk",
    text="vacuum(path) on a closed database as a lifecycle event inside L1 histories, followed by open, dump, more writes, reopen, dump; vacuum must succeed and all dumps equal the model.", ref="§3 C28"),
 
